@@ -169,7 +169,7 @@ _VALID_HT = (0, 1, 2, 3, 0x81, 0x82, 0x83)
     bound="a version 0 PSBT with 1..3 taproot inputs (utxo amounts, sequences, lock time, version symbolic) and one output; the input's own PSBT_IN_SIGHASH_TYPE absent or symbolic over the seven valid types, "
           "the hash_type argument absent or symbolic over the seven valid types (0 included), key path and script path (symbolic leaf hash): psbt.taproot_sig_hash equals sig_hash.taproot on the "
           "unsigned transaction with the argument when given, else the input's own type, else SIGHASH_DEFAULT",
-    stubs=_STUBS, functions=["btclib.psbt.psbt.taproot_sig_hash", "btclib.psbt.psbt._taproot_sig_hash", "btclib.script.sig_hash.taproot"], min_ok=1, timeout=600)
+    stubs=_STUBS, functions=["btclib.psbt.psbt.taproot_sig_hash", "btclib.psbt.psbt._taproot_sig_hash", "btclib.script.sig_hash.taproot", "btclib.psbt.psbt_view.PsbtView.taproot_sig_hash"], min_ok=1, timeout=600)
 def psbt_taproot_digest(ex, nin, own, arg, leaf):
     from sx import instr
     if not ex.concrete:
@@ -214,7 +214,11 @@ def psbt_taproot_digest(ex, nin, own, arg, leaf):
             return ex.refuse("BTClibValueError")
         return {"refused_although_the_direct_computation_answers": False}
     want = sig_hash.taproot(tx, 0, spent, effective, int(bool(leaf)), b"", ext)
-    return {"psbt_digest_is_the_direct_digest": got == want}
+    claims = {"psbt_digest_is_the_direct_digest": got == want}
+    from btclib.psbt.psbt_view import PsbtView
+    view = PsbtView(p.serialize(check_validity=False))
+    claims["streamed_view_digest_is_the_direct_digest"] = view.taproot_sig_hash(0, leaf_hash=leaf_hash, hash_type=arg_ht) == want
+    return claims
 
 
 @ob("C09", "psbt_ecdsa_digest_is_the_direct_one", quick=[dict(kind=k, own=o, arg=a) for k in ("p2wpkh", "p2wsh", "p2pkh") for o in (0, 1) for a in (0, 1)],
@@ -264,7 +268,9 @@ def psbt_ecdsa_digest(ex, kind, own, arg):
         return ex.refuse("BTClibValueError")
     code = (b"\x76\xa9\x14" + h20 + b"\x88\xac") if kind == "p2wpkh" else wscript
     want = sig_hash.segwit_v0(code, tx, 0, effective, ins[0][2])
-    return {"psbt_digest_is_the_direct_digest": got == want}
+    from btclib.psbt.psbt_view import PsbtView
+    view = PsbtView(p.serialize(check_validity=False))
+    return {"psbt_digest_is_the_direct_digest": got == want, "streamed_view_digest_is_the_direct_digest": view.ecdsa_sig_hash(0, hash_type=arg_ht) == want}
 
 
 def _psbt_legacy(ex, p, tx, h20, effective, arg_ht):
